@@ -467,7 +467,8 @@ def main_run(prop, tier, seed, examples=None, shard=None, out=None, jobs=None, r
     if not violations:
         for c, frac in prop.floors.items():
             got = stats.classes.get(c, 0) / max(1, stats.evaluations - stats.enumerated)   # of the searched cases
-            if got < frac:
+            # a small finite class saturates in long runs (Hypothesis does not repeat examples): an absolute count is enough
+            if got < frac and stats.classes.get(c, 0) < 300:
                 floor_fail.append('%s: %.3f < %.3f' % (c, got, frac))
     ev = write_evidence(prop, tier, seed, stats, violations, wall, r.findings)
     for i, f in r.findings.for_prop(prop.id):
